@@ -206,9 +206,38 @@ def make_class(kind, mode, default, statics, orig=False, variant=""):
     return cls
 
 
+CUR = {}          # the object under test, hid -> callable/owner, hid -> kind, the set of registered dynamic handler ids
+REACT = {}        # hid -> [("kill", victim) | ("spawn", kind, child)]: what the handler does while it is being notified
+
+
+def fire(hid, old, new):
+    """Body of every dynamic handler: first (un)register what it is told to — DURING the dispatch — then record."""
+    for r in REACT.get(hid, ()):
+        if r[0] == "kill":
+            if r[1] in CUR["live"]:
+                attach(CUR["kinds"][r[1]], r[1], remove=True)
+        elif r[2] not in CUR["live"]:
+            CUR["kinds"][r[2]] = r[1]
+            attach(r[1], r[2])
+    record(hid, old, new)
+
+
 def make_otc(hid):
     def f(obj, name, old, new):
-        record(hid, old, new)
+        fire(hid, old, new)
+    return f
+
+
+def make_otcany(hid):
+    def f(obj, name, old, new):
+        if name == "x":
+            fire(hid, old, new)
+    return f
+
+
+def make_obs(hid):
+    def f(event):
+        fire(hid, event.old, event.new)
     return f
 
 
@@ -226,40 +255,35 @@ class MethodOwner:
         return 17
 
     def legacy(self, obj, name, old, new):
-        record(self.hid, old, new)
+        fire(self.hid, old, new)
 
     def observer(self, event):
-        record(self.hid, event.old, event.new)
+        fire(self.hid, event.old, event.new)
 
 
-def make_otcany(hid):
-    def f(obj, name, old, new):
-        if name == "x":
-            record(hid, old, new)
-    return f
-
-
-def make_once(a, kind):
-    if kind == "otc_once":
-        def f(obj, name, old, new):
-            a.on_trait_change(f, "x", remove=True)
-        a.on_trait_change(f, "x")
-    elif kind == "otcany_once":
-        def f(obj, name, old, new):
-            if name == "x":
-                a.on_trait_change(f, remove=True)
-        a.on_trait_change(f)
+def attach(kind, hid, remove=False):
+    """Register (or remove) handler `hid` of the given kind on trait x of the object under test."""
+    a, reg = CUR["a"], CUR["reg"]
+    base = kind.replace("_once", "")
+    if not remove:
+        reg[hid] = (make_otc(hid) if base == "otc" else make_otcany(hid) if base == "otcany" else
+                    make_obs(hid) if base == "obs" else MethodOwner(hid))
+        CUR["live"].add(hid)
     else:
-        def f(event):
-            a.observe(f, "x", remove=True)
-        a.observe(f, "x")
-    return f
-
-
-def make_obs(hid):
-    def f(event):
-        record(hid, event.old, event.new)
-    return f
+        CUR["live"].discard(hid)
+    h = reg[hid]
+    if base == "otc":
+        a.on_trait_change(h, "x", remove=remove)
+    elif base == "otcany":
+        a.on_trait_change(h, remove=remove)
+    elif base == "obs":
+        a.observe(h, "x", remove=remove)
+    elif base == "otcm":
+        a.on_trait_change(h.legacy, "x", remove=remove)
+    elif base == "obsm":
+        a.observe(h.observer, "x", remove=remove)
+    else:
+        raise ValueError(kind)
 
 
 def run_case(case):
@@ -267,31 +291,20 @@ def run_case(case):
                    case.get("variant", ""))()
     RAISES.clear()
     RAISES.update(case["raises"])
-    keep = []
+    CUR.clear()
+    CUR.update(a=a, reg={}, kinds={}, live=set())
+    REACT.clear()
     for i, m in enumerate(case["dyn"]):
-        hid = 10 + i
-        if m == "otc":
-            f = make_otc(hid)
-            a.on_trait_change(f, "x")
-        elif m == "otcany":
-            f = make_otcany(hid)
-            a.on_trait_change(f)
-        elif m in ("otc_once", "otcany_once", "obs_once"):
-            # a handler that is NOT registered for the whole history: it unregisters itself while it is being
-            # notified.  It records nothing; the handlers that stay must not notice it.
-            f = make_once(a, m)
-        elif m == "otcm":              # bound method of another object: method-listener path, weak reference to the owner
-            owner = MethodOwner(hid)
-            f = owner
-            a.on_trait_change(owner.legacy, "x")
-        elif m == "obsm":              # bound method for observe: WeakMethod path
-            owner = MethodOwner(hid)
-            f = owner
-            a.observe(owner.observer, "x")
-        else:
-            f = make_obs(hid)
-            a.observe(f, "x")
-        keep.append(f)
+        if m.endswith("_once"):
+            REACT.setdefault(10 + i, []).append(("kill", 10 + i))
+    for op in case["ops"]:
+        if op[0] == "Register" and op[1].endswith("_once"):
+            REACT.setdefault(op[2], []).append(("kill", op[2]))
+    for r in case.get("reacts", []):
+        REACT.setdefault(r[0], []).append(tuple(r[1:]))
+    for i, m in enumerate(case["dyn"]):
+        CUR["kinds"][10 + i] = m
+        attach(m, 10 + i)
     out = []
     for op in case["ops"]:
         del LOG[:]
@@ -306,6 +319,15 @@ def run_case(case):
                                             case.get("variant", "")))
             elif op[0] == "QuietAssign":
                 a.trait_set(trait_change_notify=False, x=POOL[op[1]])
+            elif op[0] == "Notify":            # obj._trait_change_notify(False / True)
+                a._trait_change_notify(bool(op[1]))
+            elif op[0] == "Register":          # in the middle of the history
+                if op[2] not in CUR["live"]:
+                    CUR["kinds"][op[2]] = op[1]
+                    attach(op[1], op[2])
+            elif op[0] == "Unregister":
+                if op[1] in CUR["live"]:
+                    attach(CUR["kinds"][op[1]], op[1], remove=True)
             else:
                 a.x
             o = "Ok"
